@@ -174,7 +174,12 @@ def scan_function(prog: Prog, fn: Fn) -> Iterator[Site]:
                     defs = [node.value for kind, node in prog.local_defs(fn, base.id) if kind in ("assign",) and node.value is not None]
                     if defs and all(isinstance(d, ast.Call) and isinstance(d.func, ast.Attribute) and d.func.attr in NONEMPTY_CALLS for d in defs) and idx[0] == "const" and idx[1] in (0, -1):
                         continue
-                if isinstance(base, ast.Call) and isinstance(base.func, ast.Attribute) and base.func.attr in ("split", "rsplit") and idx[0] == "const" and idx[1] in (1, -2) and base.args:
+                split_call = base
+                if isinstance(base, ast.Name):
+                    sdefs = [node.value for kind, node in prog.local_defs(fn, base.id) if kind == "assign"]
+                    split_call = sdefs[0] if len(sdefs) == 1 and len(prog.local_defs(fn, base.id)) == 1 else base
+                if isinstance(split_call, ast.Call) and isinstance(split_call.func, ast.Attribute) and split_call.func.attr in ("split", "rsplit") and idx[0] == "const" and idx[1] in (1, -2) and split_call.args:
+                    base = split_call
                     # s.split(sep, ...)[1] exists when sep occurs in s
                     sep = prog.try_fold(base.args[0], fn.mod, fn)
                     if isinstance(sep, str) and any(p_ and t_ in (f"{sep!r} in {u(base.func.value)}",) for t_, p_ in fl.facts_for(n)):
